@@ -37,7 +37,7 @@ var c04an2Shapes = []string{
 	// literal after a leading loop
 	`\w*@x`, `[^,]*,`, `[^,]*,,`, `[ab]*c+d`, `[ab]*cd`, `[ab]*[cd]`, `[ab]*[cd]+e`, `[ab]*[cd]*e`, `[ab]*[c-j]`, `[ab]*[^c]`, `[ab]*a`, `[ab]*(c)d`, `([ab]*)cd`, `(?>[ab]*)cd`, `[ab]*?cd`, `[ab]+cd`, `[ab]{2,}cd`, `[ab]{0,5}cd`,
 	`[^ÃÂ]*(?:éx|èy)`, `[^ÃÂ]*(?:(é)|(è))`, `[^ÃÂ]*é`, `[^ÃÂ]*éz`, `[^éÂ]*éz`, `[^€]*(?:€a|₭b)`, `[^ab]*(?:😀a|😁b)`, `[ab]*(?i)cd`, `[ab]*(?i)1c`, `[ab]*[Cc][Dd]`, `[ab]*[Cc]{2}d`, `[cd]*[Cc][Dd]`, `[ab]*12(?i)c`, `[12]*(?i)-3`,
-	`[ab]*(?:[Cc][Dd]){2}`, `[ab]*(?:[Cc]1){2,}`, `[cd]*(?:[Cc][Dd]){2}`, `[12]*(?:-[Cc]){2}`, `[-1]*(?:-[Cc]){2}`, `[ab]*(?:(?:[Cc][Dd]){2})`, `[ab]*((?:[Cc]\b[Dd]){2})`, `[ab]*(?:cd|ce)`, `[ab]*(?:c|d)e`, `[ab]*\bcd`, `[ab]*(?=c)cd`, `[ab]*(?:(?:cd))e`, `[ab]*()cd`, `\s*=`, `\s*==`, `[a-z]*\d`, `[a-z]*[0-4]`, `[a-z]*[0-5]`, `\d*[a-e]x`,
+	`[ab]*(?:[Cc][Dd]){2}`, `[ab]*(?:[Cc]1){2,}`, `[cd]*(?:[Cc][Dd]){2}`, `[12]*(?:-[Cc]){2}`, `[-1]*(?:-[Cc]){2}`, `[ab]*(?:(?:[Cc][Dd]){2})`, `[ab]*((?:[Cc]\b[Dd]){2})`, "[\u0100-\u0200\u0300-\u0400]*\\x{D800}", "[\u0100-\u0200\u0300-\u0400]*\\x{D800}z", "[\u0100-\u0200\u0300-\u0400]*\ufffdz", "[\u0100-\u0200\u0300-\u0400]*z\ufffd", `[ab]*(?:cd|ce)`, `[ab]*(?:c|d)e`, `[ab]*\bcd`, `[ab]*(?=c)cd`, `[ab]*(?:(?:cd))e`, `[ab]*()cd`, `\s*=`, `\s*==`, `[a-z]*\d`, `[a-z]*[0-4]`, `[a-z]*[0-5]`, `\d*[a-e]x`,
 	// landmark chains
 	`\w+@\w+\.com`, `[\w-]+\s*=\s*\d+`, `[a-z]+ = [0-9]+;`, `[ac]*[ab]{1,2}a`, `a*[ab]{1,2}[a-]`, `[ac]+[ab]{1,3}b[ab]{1,2}a`, `[a-z]+(?:@|\d+)[a-z]+(?:\.|,)[a-z]+`, `\w+(?:-|\s+)\w+(?:=|\d)\w+`,
 	`[a-z]+(?:x|[0-9]{2})[a-z]+(?:;|y+)z`, `[ae]*(?:\s*x| )b[cd]`, `[xy]*(?:abc|b)c(d)`, `[xy]*(?:[a ]{1,3}\s+|q)b(d)`, `[xy]*\bab(c)`, `[xy]*^a\s+b(c)`, `[xy]*a\s*b\s*c`, `[xy]*(?:\s*a\s*|b)c(d)e`, `[xy]*\w(a)(b)`,
@@ -320,6 +320,7 @@ func legC04Analysis2(c *Ctx) {
 					seen["lal-char"]++
 				}
 			}
+			out = append(out, 1) // hypothesis of the C04 theorem: a published case-sensitive string is valid UTF-8
 			if ch := syntax.VerifFindRequiredLandmarkChain(root); ch == nil {
 				out = append(out, 0)
 			} else {
